@@ -115,11 +115,20 @@ TABLE = {
             {"driver": "postaction", "required_clauses": ["post-action"]},
         ],
     },
+    "C16": {
+        "level": "model_checking", "rule": WORLD_RULE, "assumptions": SEQ_ASSUME + ["precondition of the statement: no registration failures are injected here", "the kernel side is read from /proc/self/fdinfo/<epoll fd> after every top-level step; expected event masks are calibrated through the polling crate, not through calloop"],
+        "drivers": [
+            {"driver": "epoll", "required_clauses": ["epoll-table", "blocking-mode-restored", "reinsert-released-fd", "executor-destroyed", "release"]},
+            {"driver": "modes", "required_clauses": ["epoll-table"]},
+            {"driver": "removal", "required_clauses": ["epoll-table"]},
+        ],
+    },
     "C10": {
         "level": "model_checking", "rule": SCHED_RULE, "assumptions": T_ASSUME,
         "drivers": [
             {"driver": "exec-mt", "required_clauses": ["executor-wake", "executor-drop"],
              "opts": {"quick": {"threads": 2, "len": 2, "preempt": 2}, "thorough": {"threads": 2, "len": 3, "preempt": 3, "wall": 900}}},
+            {"driver": "exec-seq", "required_clauses": ["callback-legitimacy", "dispatch-owed", "executor-destroyed", "wait-request"]},
         ],
     },
     "C11": {
